@@ -2,6 +2,7 @@ package h
 
 import (
 	"fmt"
+	"sort"
 	"sync"
 
 	"github.com/netflix/rend/orcas"
@@ -9,28 +10,27 @@ import (
 	"verif/sched"
 )
 
-// stripe models one slot of a lock set. shared=true when rend built it from a sync.RWMutex and
-// its RLocker (multi-reader), false when both entries are the same sync.Mutex (single-reader).
+// The instrumented lockers are model-free: each wraps the locker rend itself put into the lock
+// set and asks the *real* lock whether it is available (TryLock / TryRLock followed by an immediate
+// release) when the scheduler evaluates the enabled set. Whatever aliasing structure rend built
+// (one mutex for both entries, an RWMutex and its RLocker, or anything a refactor turns it into)
+// is therefore exactly what the explored schedules exercise.
 type stripe struct {
-	idx     int
-	shared  bool
-	writer  int // thread id holding the write lock, -1 if none
-	readers map[int]int
-	realM   *sync.Mutex
-	realRW  *sync.RWMutex
+	idx   int
+	origW sync.Locker
+	origR sync.Locker
 }
 
 // LockMonitor instruments one lock set for one execution.
 type LockMonitor struct {
 	S       *sched.Sched
 	stripes []*stripe
-	// per thread: stripes currently held
+	// per thread: stripes currently held (count per stripe)
 	held     map[int]map[int]int
+	holders  map[*ilock][]int // thread ids currently holding through this locker
 	MaxHeld  int
 	Log      []string
-	Conform  string // first disagreement between the scheduler's lock model and the real mutex
-	origW    []sync.Locker
-	origR    []sync.Locker
+	Conform  string // an Unlock without a holder, or a lock that could not be probed
 	liveW    []sync.Locker
 	liveR    []sync.Locker
 	Acquires int
@@ -40,41 +40,56 @@ type ilock struct {
 	m     *LockMonitor
 	st    *stripe
 	write bool
+	orig  sync.Locker
+	probe func() bool
+}
+
+type tryLocker interface {
+	sync.Locker
+	TryLock() bool
+}
+
+// probeFor returns a function reporting whether orig could be acquired right now.
+func probeFor(orig, writeEntry sync.Locker) (func() bool, string) {
+	if t, ok := orig.(tryLocker); ok {
+		return func() bool {
+			if t.TryLock() {
+				t.Unlock()
+				return true
+			}
+			return false
+		}, ""
+	}
+	// the read entry of an RWMutex (its RLocker) has no TryLock; probe through the RWMutex
+	type tryRLocker interface {
+		TryRLock() bool
+		RUnlock()
+	}
+	if rw, ok := writeEntry.(tryRLocker); ok {
+		return func() bool {
+			if rw.TryRLock() {
+				rw.RUnlock()
+				return true
+			}
+			return false
+		}, ""
+	}
+	return func() bool { return true }, fmt.Sprintf("locker of type %T cannot be probed", orig)
 }
 
 func (l *ilock) Lock() {
 	m, st := l.m, l.st
-	tid := m.S.Current()
-	excl := l.write || !st.shared
 	kind := "r"
-	if excl {
+	if l.write {
 		kind = "w"
 	}
-	m.S.Point(fmt.Sprintf("lock-%s[%d]", kind, st.idx), func() bool {
-		if excl {
-			return st.writer == -1 && len(st.readers) == 0
-		}
-		return st.writer == -1
-	})
+	m.S.Point(fmt.Sprintf("lock-%s[%d]", kind, st.idx), l.probe)
 	if m.S.Poisoned() {
 		return
 	}
-	tid = m.S.Current()
-	ok := true
-	if excl {
-		st.writer = tid
-		if st.shared {
-			ok = st.realRW.TryLock()
-		} else {
-			ok = st.realM.TryLock()
-		}
-	} else {
-		st.readers[tid]++
-		ok = st.realRW.TryRLock()
-	}
-	if !ok && m.Conform == "" {
-		m.Conform = fmt.Sprintf("scheduler granted %s-lock on stripe %d to T%d but the real mutex is not available", kind, st.idx, tid)
-	}
+	tid := m.S.Current()
+	l.orig.Lock() // free by the probe, and no other thread has run since
+	m.holders[l] = append(m.holders[l], tid)
 	if m.held[tid] == nil {
 		m.held[tid] = map[int]int{}
 	}
@@ -88,54 +103,35 @@ func (l *ilock) Lock() {
 
 func (l *ilock) Unlock() {
 	m, st := l.m, l.st
-	excl := l.write || !st.shared
-	if excl {
-		tid := st.writer
-		if tid == -1 {
-			if m.Conform == "" && !m.S.Poisoned() {
-				m.Conform = fmt.Sprintf("unlock of stripe %d which is not write-locked", st.idx)
-			}
-			return
+	kind := "r"
+	if l.write {
+		kind = "w"
+	}
+	hs := m.holders[l]
+	if len(hs) == 0 {
+		if m.Conform == "" && !m.S.Poisoned() {
+			m.Conform = fmt.Sprintf("unlock of the %s entry of stripe %d which nobody holds", kind, st.idx)
 		}
-		st.writer = -1
-		if st.shared {
-			st.realRW.Unlock()
-		} else {
-			st.realM.Unlock()
-		}
-		m.release(tid, st.idx, "w")
 		return
 	}
-	// a read unlock: attribute it to the running thread if it holds one, else to any reader
-	tid := m.S.Current()
-	if st.readers[tid] == 0 {
-		for t := range st.readers {
-			tid = t
+	// attribute the release to the running thread if it is a holder, else to the oldest holder
+	tid, at := hs[0], 0
+	cur := m.S.Current()
+	for i, h := range hs {
+		if h == cur {
+			tid, at = h, i
 			break
 		}
 	}
-	if st.readers[tid] == 0 {
-		if m.Conform == "" && !m.S.Poisoned() {
-			m.Conform = fmt.Sprintf("read-unlock of stripe %d which has no reader", st.idx)
-		}
-		return
-	}
-	st.readers[tid]--
-	if st.readers[tid] == 0 {
-		delete(st.readers, tid)
-	}
-	st.realRW.RUnlock()
-	m.release(tid, st.idx, "r")
-}
-
-func (m *LockMonitor) release(tid, idx int, kind string) {
+	m.holders[l] = append(hs[:at:at], hs[at+1:]...)
+	l.orig.Unlock()
 	if h := m.held[tid]; h != nil {
-		h[idx]--
-		if h[idx] <= 0 {
-			delete(h, idx)
+		h[st.idx]--
+		if h[st.idx] <= 0 {
+			delete(h, st.idx)
 		}
 	}
-	m.Log = append(m.Log, fmt.Sprintf("T%d -%s%d", tid, kind, idx))
+	m.Log = append(m.Log, fmt.Sprintf("T%d -%s%d", tid, kind, st.idx))
 }
 
 var (
@@ -144,8 +140,7 @@ var (
 )
 
 // InstallLockMonitor replaces every locker of the lock set by an instrumented one for the
-// duration of one execution. The aliasing structure rend built (same Mutex for read and write,
-// or RWMutex + its RLocker) is inspected on the original elements and preserved.
+// duration of one execution.
 func InstallLockMonitor(s *sched.Sched, slot uint32) *LockMonitor {
 	w, r := orcas.VerifLockSet(slot)
 	origMu.Lock()
@@ -155,46 +150,48 @@ func InstallLockMonitor(s *sched.Sched, slot uint32) *LockMonitor {
 		origLocks[slot] = o
 	}
 	origMu.Unlock()
-	m := &LockMonitor{S: s, held: map[int]map[int]int{}, origW: o[0], origR: o[1], liveW: w, liveR: r}
+	m := &LockMonitor{S: s, held: map[int]map[int]int{}, holders: map[*ilock][]int{}, liveW: w, liveR: r}
 	for i := range w {
-		st := &stripe{idx: i, writer: -1, readers: map[int]int{}}
-		switch ow := o[0][i].(type) {
-		case *sync.Mutex:
-			if or, ok := o[1][i].(*sync.Mutex); !ok || or != ow {
-				panic("lock set: read entry is not the same mutex as the write entry")
-			}
-			st.realM = &sync.Mutex{}
-		case *sync.RWMutex:
-			st.shared = true
-			st.realRW = &sync.RWMutex{}
-		default:
-			panic(fmt.Sprintf("lock set: unexpected locker type %T", ow))
-		}
+		st := &stripe{idx: i, origW: o[0][i], origR: o[1][i]}
 		m.stripes = append(m.stripes, st)
-		w[i] = &ilock{m: m, st: st, write: true}
-		r[i] = &ilock{m: m, st: st, write: false}
+		pw, e1 := probeFor(o[0][i], o[0][i])
+		pr, e2 := probeFor(o[1][i], o[0][i])
+		if e1+e2 != "" && m.Conform == "" {
+			m.Conform = e1 + e2
+		}
+		w[i] = &ilock{m: m, st: st, write: true, orig: o[0][i], probe: pw}
+		r[i] = &ilock{m: m, st: st, write: false, orig: o[1][i], probe: pr}
 	}
 	return m
 }
 
-// Uninstall puts the original lockers back.
+// Uninstall puts the original lockers back and releases whatever the execution left locked (a
+// leak has been reported by then; the next execution must start from an unlocked lock set).
 func (m *LockMonitor) Uninstall() {
-	for i := range m.liveW {
-		m.liveW[i] = m.origW[i]
-		m.liveR[i] = m.origR[i]
+	for l, hs := range m.holders {
+		for range hs {
+			l.orig.Unlock()
+		}
+	}
+	m.holders = map[*ilock][]int{}
+	for i, st := range m.stripes {
+		m.liveW[i] = st.origW
+		m.liveR[i] = st.origR
 	}
 }
 
 // HeldNow lists thread/stripe pairs still held.
 func (m *LockMonitor) HeldNow() []string {
 	var out []string
-	for i, st := range m.stripes {
-		if st.writer != -1 {
-			out = append(out, fmt.Sprintf("stripe %d write-locked by T%d", i, st.writer))
-		}
-		for t := range st.readers {
-			out = append(out, fmt.Sprintf("stripe %d read-locked by T%d", i, t))
+	for l, hs := range m.holders {
+		for _, t := range hs {
+			kind := "read"
+			if l.write {
+				kind = "write"
+			}
+			out = append(out, fmt.Sprintf("stripe %d %s-locked by T%d", l.st.idx, kind, t))
 		}
 	}
+	sort.Strings(out)
 	return out
 }
